@@ -423,6 +423,38 @@ def p5(ctx, fx, I):
                     seps[chr(v)] = ("skip" if idx else "keep") if somes else "none"
                 oth = cfg.reachable(f, [t["otherwise"]])
                 seps["*"] = "some" if [e for e in cfg.exit_sites(f) if e["bb"] in oth and e["kind"] == "Some" and e["bb"] not in set().union(*[cfg.reachable(f, [tg]) for (_, tg) in t["targets"]])] else "none"
+    # exact decision first: the continuation test interpreted over the four classes of the remainder after the key (sa/pathsep.py)
+    import pathsep
+    entry = None
+    nv = vals(fx.fns[nl.name])   # the original body: in the view the adaptor is already spelled out as a loop
+    for b_, t_ in fx.fns[nl.name].calls():
+        if t_.get("name") in ("filter_map", "map", "filter", "flat_map") and t_.get("trait") == "std::iter::Iterator":
+            n_ = nv.call_node(b_)
+            clo = peel(n_.kids[1]) if len(n_.kids) > 1 else None
+            if clo is not None and clo.kind == "agg" and clo.d["agg"].get("kind") == "closure" and clo.d["agg"].get("def") in fx.fns:
+                entry = fx.view(clo.d["agg"]["def"])
+    if entry is not None and entry.arg_count == 2:
+        try:
+            tab = {}
+            classes = pathsep.alphabet(entry)
+            for cls in classes:
+                it = pathsep.Interp(entry, 2, None, cls)
+                it.env[1] = ("ref", ("closure", [("ref", ("ref", ("key",)))]))
+                r = it.run()
+                if not (isinstance(r, tuple) and r[0] == "variant" and r[1] in ("Some", "None")):
+                    raise pathsep.Unsupported("result %r" % (r,))
+                tab[cls] = "none" if r[1] == "None" else {("rest", 1): "skip", ("rest", 0): "keep"}.get(it.deref(r[2][0]), "other")
+            want = dict((c, "none") for c in classes)
+            want["."], want["["] = "skip", "keep"
+            if tab == want:
+                ctx.ok("C05.P5", nl, "custom-separators", "a listed path continues below a key only after `.` (dropped) or `[` (kept); anything else (or nothing) does not match "
+                       "(the continuation test interpreted over the four classes of the remainder)")
+            else:
+                bad = dict((("<other>" if c == "o" else ("<empty>" if c == "" else c)), tab[c]) for c in classes if tab[c] != want[c])
+                ctx.finding("C05.P5", nl, "custom-separators", "the Custom path continuation treats a remainder starting with %r wrongly (expected '.' skipped, '[' kept, anything else and the empty remainder not matching)" % (bad,))
+            return
+        except pathsep.Unsupported as e:
+            ctx.stats["pathsep_unsupported"] = str(e)
     if seps == {".": "skip", "[": "keep", "*": "none"}:
         ctx.ok("C05.P5", nl, "custom-separators", "a listed path continues below a key only after `.` (dropped) or `[` (kept); anything else does not match")
     else:
